@@ -36,6 +36,11 @@ class ArrayVSpace(VSpace):
     def _inner_prod(self, x, y):
         return np.dot(np.ravel(x), np.ravel(y))
 
+    def _scalar_mul(self, x, a):
+        # a scalar typed by NumPy (an inner product is one) would promote a lower-precision vector out of its space
+        r = x * a
+        return r if np.result_type(r) == self.dtype else np.asarray(r, dtype=self.dtype)[()]
+
 
 class ComplexArrayVSpace(ArrayVSpace):
     iscomplex = True
